@@ -436,6 +436,11 @@ pub fn run(args: &Args) -> ! {
             std::fs::write(d.join("silentfail.sh"), "#!/bin/sh\ncat \"$1\"\nexit 3\n").unwrap();
             let _ = std::fs::set_permissions(d.join("silentfail.sh"), std::fs::Permissions::from_mode(0o755));
         }
+        // a directory that can be listed but not entered (r--): its entries
+        // can be neither stat'ed nor opened
+        std::fs::create_dir_all(d.join("listonly")).unwrap();
+        std::fs::write(d.join("listonly/in.txt"), "needle\n").unwrap();
+        let _ = Command::new("chmod").arg("444").arg(d.join("listonly")).status();
         let _ = Command::new("chmod").arg("000").arg(d.join("secret.txt")).status();
         let _ = Command::new("chmod").arg("000").arg(d.join("locked")).status();
         let cases: Vec<(&str, Vec<&str>, Vec<&str>, i32, bool)> = vec![
@@ -446,6 +451,9 @@ pub fn run(args: &Args) -> ! {
             ("dangling symlink named explicitly", vec!["needle", "dangling.lnk", "a.txt"], vec!["dangling.lnk"], 2, true),
             ("dangling symlink under -L", vec!["-L", "-j1", "needle"], vec!["dangling.lnk"], 2, true),
             ("missing path", vec!["needle", "nope.txt", "a.txt"], vec!["nope.txt"], 2, true),
+            ("entry that cannot be stat'ed", vec!["-j1", "--sort", "path", "needle", "listonly", "a.txt"], vec!["listonly"], 2, true),
+            ("entry that cannot be stat'ed, --max-filesize", vec!["-j1", "--sort", "path", "--max-filesize", "1M", "needle", "listonly", "a.txt"], vec!["listonly"], 2, true),
+            ("entry that cannot be stat'ed, --max-filesize, two threads", vec!["-j2", "--max-filesize", "1M", "needle", "listonly", "a.txt"], vec!["listonly"], 2, true),
             ("symlink loop under -L", vec!["-L", "-j1", "needle", "sub", "a.txt"], vec!["loop"], 2, true),
             ("symlink loop under -L, two threads", vec!["-L", "-j2", "needle", "sub", "a.txt"], vec!["loop"], 2, true),
             ("symlink loop under -L, --no-ignore-messages", vec!["-L", "-j1", "--no-ignore-messages", "needle", "sub", "a.txt"], vec!["loop"], 2, true),
@@ -485,7 +493,7 @@ pub fn run(args: &Args) -> ! {
                 total.disc.push((format!("real-fault | {}", name), json!({"kind":"real-fault","case":name,"args":a,"why":why,"status":out.status.code(),"stdout":stdout,"stderr":stderr})));
             }
         }
-        let _ = Command::new("chmod").arg("755").arg(d.join("locked")).status();
+        let _ = Command::new("chmod").arg("755").arg(d.join("locked")).arg(d.join("listonly")).status();
     }
 
     // ---- 4. the consumer closes the pipe after k bytes, for every k -----------
@@ -610,7 +618,7 @@ pub fn run(args: &Args) -> ! {
     ev.set("faults_by_kind", json!(total.by_kind));
     ev.set(
         "rule",
-        "real rg binary on 3 trees (mixed / all files match / none matches) x 6 modes (standard, -c, -l, -q, --files, --json) x -j1 and -j2 (the latter under the replay scheduler's default schedule so that 'the k-th call' is well defined): the run is repeated under `strace -e inject=<syscall>:error=<E>:when=k` for EVERY k up to the number of such calls in the fault-free run, for openat->EACCES, openat->ENOENT, read->EIO, getdents64->EACCES, write->EPIPE; the injected call's path is recovered from the strace log (faults on start-up files are skipped). Decision table: a fault on a tree path => a diagnostic naming it on stderr, exit status 2 (0 allowed for -q with a match), the other files' results identical to the fault-free run; EPIPE on stdout => status 0, empty stderr, no further file opened (promptly). Plus: 61 invalid argument sets (regex, pattern file, engine, globs for -g / --iglob / --pre-glob with and without a preprocessor, types, encoding, numbers, sizes, sort / colour / hyperlink choices, unknown flags, under --files / -c / -l / --json) => status 2, a diagnostic and empty stdout; 11 rows of arguments coming from a RIPGREP_CONFIG_PATH file (special modes, invalid flags and values: the documented status, never a crash); real faults as uid 65534 (mode-000 file and directory, dangling symlinks, a symlink loop under -L, a preprocessor failing silently, missing paths, -q, -q --stats, -q --json and --no-messages variants); the stdout consumer closing after k bytes for every k up to 120 (400) and around every buffer boundary, in 13 variants (-j1/-j2, --line-buffered, --files, -c, --json, --pre cat at -j1 and -j2, -z with gzip files, transcoding, --passthru with a pattern that matches nothing at -j1 and -j2) => status 0 and no diagnostic.",
+        "real rg binary on 3 trees (mixed / all files match / none matches) x 6 modes (standard, -c, -l, -q, --files, --json) x -j1 and -j2 (the latter under the replay scheduler's default schedule so that 'the k-th call' is well defined): the run is repeated under `strace -e inject=<syscall>:error=<E>:when=k` for EVERY k up to the number of such calls in the fault-free run, for openat->EACCES, openat->ENOENT, read->EIO, getdents64->EACCES, write->EPIPE; the injected call's path is recovered from the strace log (faults on start-up files are skipped). Decision table: a fault on a tree path => a diagnostic naming it on stderr, exit status 2 (0 allowed for -q with a match), the other files' results identical to the fault-free run; EPIPE on stdout => status 0, empty stderr, no further file opened (promptly). Plus: 61 invalid argument sets (regex, pattern file, engine, globs for -g / --iglob / --pre-glob with and without a preprocessor, types, encoding, numbers, sizes, sort / colour / hyperlink choices, unknown flags, under --files / -c / -l / --json) => status 2, a diagnostic and empty stdout; 11 rows of arguments coming from a RIPGREP_CONFIG_PATH file (special modes, invalid flags and values: the documented status, never a crash); real faults as uid 65534 (mode-000 file and directory, dangling symlinks, a symlink loop under -L, entries of a list-only directory with and without --max-filesize, a preprocessor failing silently, missing paths, -q, -q --stats, -q --json and --no-messages variants); the stdout consumer closing after k bytes for every k up to 120 (400) and around every buffer boundary, in 13 variants (-j1/-j2, --line-buffered, --files, -c, --json, --pre cat at -j1 and -j2, -z with gzip files, transcoding, --passthru with a pattern that matches nothing at -j1 and -j2) => status 0 and no diagnostic.",
     );
     ev.set("samples", json!([{"tree": "mixed", "mode": "standard", "fault": "openat:error=EACCES:when=17 (d/c.txt)"}, {"pipe": "rg -j1 --line-buffered needle, consumer closes after 37 bytes"}]));
     ev.assume("strace's fault injector; setpriv to drop root so that mode 000 is effective");
